@@ -68,9 +68,15 @@ def _walk(e, seen, out):
     elif z3.is_quantifier(e):
         _walk(e.body(), seen, out)
 
-def instantiate(formulas, depth=1):
-    """unfolding instances for every SpecSeq application occurring in `formulas`"""
-    axioms, done = [], set()
+def apps_in(formulas):
+    apps, seen = [], set()
+    for f in formulas: _walk(f, seen, apps)
+    return apps
+
+def instantiate(formulas, depth=1, skip=()):
+    """unfolding instances for every SpecSeq application occurring in `formulas`
+    (applications whose ast id is in `skip` are left folded: omitting an axiom instance is always sound)"""
+    axioms, done = [], set(skip)
     frontier = list(formulas)
     for _ in range(depth):
         apps, seen = [], set()
@@ -96,3 +102,31 @@ def _has_bound_var(e):
     return False
 
 def all_specs(): return dict(_REGISTRY)
+
+
+class SpecAcc(object):
+    """F(p..., 0) = base(p...);  F(p..., t) = step(p..., t-1, F(p..., t-1)) for t >= 1.
+    Used for accumulated scalars (r += dr) so that loop obligations stay linear; the closed form is
+    proved separately by induction (closed_form_obligations)."""
+    def __init__(self, name, param_sorts, base, step, result=RealS, closed=None):
+        self.name, self.param_sorts, self.base, self.step, self.result, self.closed = name, list(param_sorts), base, step, result, closed
+        self.f = z3.Function(name, *(self.param_sorts + [IntS, result]))
+        _REGISTRY[name] = self
+    def __call__(self, *args):
+        args = [coerce_py(a) for a in args]
+        return self.f(*args)
+    def unfold(self, args):
+        ps, t = list(args[:-1]), args[-1]
+        F = self.f
+        return [z3.Implies(t == 0, F(*(ps + [t])) == self.base(*ps)),
+                z3.Implies(t >= 1, F(*(ps + [t])) == self.step(*(ps + [t - 1, F(*(ps + [t - 1]))])))]
+    def lemma_obligations(self):
+        if self.closed is None: return []
+        ps = [z3.FreshConst(s, 'p') for s in self.param_sorts]
+        n = z3.FreshConst(IntS, 'n')
+        F = self.f
+        return [('speclib/%s/closed/base' % self.name, [F(*(ps + [z3.IntVal(0)])) == self.base(*ps)],
+                 F(*(ps + [z3.IntVal(0)])) == self.closed(*(ps + [z3.IntVal(0)]))),
+                ('speclib/%s/closed/step' % self.name,
+                 [n >= 0, F(*(ps + [n])) == self.closed(*(ps + [n])), F(*(ps + [n + 1])) == self.step(*(ps + [n, F(*(ps + [n]))]))],
+                 F(*(ps + [n + 1])) == self.closed(*(ps + [n + 1])))]
